@@ -31,7 +31,7 @@ def make_post(p):
     raise ValueError(n)
 
 
-def reference(x, cfg, pre, post, channel):
+def reference(x, cfg, pre, post, channel, want_signal=False):
     """x: (C, S) float64. Returns the float32 feature matrix the tools should store."""
     if x.shape[0] > 1 or channel not in (-1, None):
         sig = x[0 if channel in (-1, None) else channel]
@@ -48,10 +48,68 @@ def reference(x, cfg, pre, post, channel):
             feats = configs.build(cfg).compute_full(sig)
         for p in post:
             feats = make_post(p).apply(feats)
+    if want_signal:
+        return np.asarray(feats).astype(np.float32), sig
     return np.asarray(feats).astype(np.float32)
 
 
-def close(a, b, use_log):
+def frame_amplitude(sig, nframes, L, S):
+    """max |sample| in a neighbourhood that certainly contains frame k (and whatever is reflected into it)."""
+    out = np.zeros(nframes)
+    a = np.abs(np.asarray(sig, dtype=np.float64))
+    for k in range(nframes):
+        lo, hi = max(0, k * S - L), min(len(a), k * S + L + 1)
+        out[k] = a[lo:hi].max() if hi > lo else 0.0
+    return out
+
+
+SINGLE = 2e-7  # about 3 x float32 epsilon. The PyTorch port keeps its window in float32 and its filters in complex64, which
+#                moves a LINEAR coefficient of frame k by up to ~eps32 x (largest sample near the frame) [x that amplitude
+#                again for power spectra], whatever the size of the coefficient. Measured on the unchanged tree: 9e-8 x
+#                amplitude at most; a coefficient that is tiny through cancellation showed 1.2e-3 relative error once in
+#                40 000 thorough runs (the false alarm this replaces).
+
+
+def linear_atol(amp, use_power):
+    return SINGLE * (amp * amp if use_power else amp)
+
+
+def close_linear(a, b, amp, use_power):
+    """Log-domain features without post-processing, compared as exp() of them: |a-b| <= 1e-4 max(a,b) + atol_k, where
+    atol_k is what single precision of the PyTorch port allows in frame k - an ABSOLUTE error proportional to the
+    amplitude of the samples in that frame (zero for digital silence), not to the coefficient itself."""
+    a = np.asarray(a)
+    b = np.asarray(b)
+    if a.shape != b.shape:
+        return "shape %s vs reference %s" % (a.shape, b.shape)
+    if a.size == 0:
+        return None
+    with np.errstate(over="ignore"):
+        al, bl = np.exp(a.astype(np.float64)), np.exp(b.astype(np.float64))
+    if not (np.isfinite(al).all() and np.isfinite(bl).all()):
+        return close(a, b, True)
+    tol = 1e-4 * np.maximum(al, bl) + linear_atol(amp, use_power)[:, None]
+    err = np.abs(al - bl)
+    if (err > tol).any():
+        i = np.unravel_index(int(np.argmax(err - tol)), err.shape)
+        return "entry %s: stored %r reference %r (linear %r vs %r; %d of %d entries differ)" % (
+            tuple(int(q) for q in i), float(a[i]), float(b[i]), float(al[i]), float(bl[i]), int((err > tol).sum()), err.size)
+    return None
+
+
+def log_slack(base_ref, amp, use_power):
+    """Absolute slack in the log domain that the single-precision error of frame k allows for its smallest coefficient
+    (used when post-processors combine log features linearly); the maximum over frames."""
+    if base_ref.size == 0:
+        return 0.0
+    with np.errstate(over="ignore"):
+        lin = np.exp(base_ref.astype(np.float64))
+    if not np.isfinite(lin).all():
+        return 0.0
+    return float(np.max(linear_atol(amp, use_power) / np.maximum(lin.min(axis=1), 1e-300)))
+
+
+def close(a, b, use_log, slack=0.0):
     """None if a (stored) equals b (reference) to float32 precision, else a description."""
     a = np.asarray(a)
     b = np.asarray(b)
@@ -65,7 +123,7 @@ def close(a, b, use_log):
         return "non-finite pattern differs"
     a64, b64 = np.where(fin, a64, 0.0), np.where(fin, b64, 0.0)
     scale = float(np.max(np.abs(b64))) if b64.size else 0.0
-    tol = 1e-4 * np.maximum(np.abs(a64), np.abs(b64)) + 1e-5 * scale + (2e-4 if use_log else 0.0)
+    tol = 1e-4 * np.maximum(np.abs(a64), np.abs(b64)) + 1e-5 * scale + (2e-4 if use_log else 0.0) + slack
     err = np.abs(a64 - b64)
     if (err > tol).any():
         i = np.unravel_index(int(np.argmax(err - tol)), err.shape)
